@@ -4,9 +4,10 @@
 // interface definitions the generated code must satisfy with go/parser, and regenerates the
 // Gallina file TmplMethodsGen.v:
 //
-//   - for every `func` a template emits: its name, its receiver kind and the list of guards
+//   - for every `func` a template emits: its name, its receiver kind, the list of guards
 //     ({{if}} / {{else}} / {{range}} / {{with}} nodes) enclosing the position of the `func`
-//     keyword;
+//     keyword, and its signature (parameter and result types as template text, read off the
+//     header line with go/parser);
 //   - the method names of genum.Enum, genum.TypedEnum (with the embedded Enum), gerror.Error,
 //     gerror.Factory, and the methods declared on gerror.GError (promoted into every extension
 //     struct).
@@ -23,6 +24,7 @@ import (
 	"fmt"
 	"go/ast"
 	"go/parser"
+	"go/printer"
 	"go/token"
 	"os"
 	"path/filepath"
@@ -39,9 +41,11 @@ type guard struct {
 }
 
 type tfunc struct {
-	name   string
-	recv   string // RValue | RPointer | RNone
-	guards []guard
+	name    string
+	recv    string // RValue | RPointer | RNone
+	guards  []guard
+	params  []string // parameter types as template text, one per parameter
+	results []string // result types as template text
 }
 
 // piece is one element of the linearised template: literal text or an action placeholder,
@@ -150,9 +154,74 @@ func funcsOf(pieces []piece) []tfunc {
 				recv = "RPointer"
 			}
 		}
-		out = append(out, tfunc{name: all[m[8]:m[9]], recv: recv, guards: pieces[k].guards})
+		// the signature: the rest of the header line after the function name
+		rest := all[m[9]:] // starts at the "(" of the parameter list
+		if nl := strings.IndexByte(rest, '\n'); nl >= 0 {
+			rest = rest[:nl]
+		}
+		ps, rs := signatureOf(rest)
+		out = append(out, tfunc{name: all[m[8]:m[9]], recv: recv, guards: pieces[k].guards, params: ps, results: rs})
 	}
 	return out
+}
+
+var placeholderRe = regexp.MustCompile(`<[^<>]*>`)
+
+// signatureOf parses "(params) results {" (template text with <action> placeholders) with
+// go/parser and returns the parameter and result types, one entry per parameter, printed
+// canonically (interface{} as any); placeholders are kept verbatim.
+func signatureOf(rest string) ([]string, []string) {
+	var phs []string
+	src := placeholderRe.ReplaceAllStringFunc(rest, func(m string) string {
+		phs = append(phs, m)
+		return fmt.Sprintf("PH%dX", len(phs)-1)
+	})
+	// the body starts at the first "{" up to which the text parses as a signature (a "{" inside
+	// interface{} / struct{} does not)
+	fset := token.NewFileSet()
+	var fd *ast.FuncDecl
+	for i := 0; i < len(src); i++ {
+		if src[i] != '{' {
+			continue
+		}
+		f, err := parser.ParseFile(fset, "sig.go", "package p\nfunc f"+src[:i]+"{}\n", 0)
+		if err != nil || len(f.Decls) != 1 {
+			continue
+		}
+		if d, ok := f.Decls[0].(*ast.FuncDecl); ok {
+			fd = d
+			break
+		}
+	}
+	if fd == nil {
+		return []string{"?unparsed: " + strings.TrimSpace(rest)}, []string{}
+	}
+	back := func(t string) string {
+		for i, ph := range phs {
+			t = strings.ReplaceAll(t, fmt.Sprintf("PH%dX", i), ph)
+		}
+		t = strings.ReplaceAll(t, "interface{}", "any")
+		return t
+	}
+	list := func(fl *ast.FieldList) []string {
+		out := []string{}
+		if fl == nil {
+			return out
+		}
+		for _, fld := range fl.List {
+			var b strings.Builder
+			_ = printer.Fprint(&b, fset, fld.Type)
+			n := len(fld.Names)
+			if n == 0 {
+				n = 1
+			}
+			for i := 0; i < n; i++ {
+				out = append(out, back(b.String()))
+			}
+		}
+		return out
+	}
+	return list(fd.Type.Params), list(fd.Type.Results)
 }
 
 func parseTemplate(path string) ([]tfunc, error) {
@@ -194,6 +263,14 @@ func galGuard(g guard) string {
 	}
 }
 
+func qlist(xs []string) string {
+	qs := make([]string, len(xs))
+	for i, x := range xs {
+		qs[i] = q(x)
+	}
+	return "[" + strings.Join(qs, "; ") + "]"
+}
+
 func galFuncs(name string, fs []tfunc) string {
 	var sb strings.Builder
 	fmt.Fprintf(&sb, "Definition %s : list tfunc := [\n", name)
@@ -206,7 +283,7 @@ func galFuncs(name string, fs []tfunc) string {
 		if i == len(fs)-1 {
 			sep = ""
 		}
-		fmt.Fprintf(&sb, "  mk_tfunc %s %s [%s]%s\n", q(f.name), f.recv, strings.Join(gs, "; "), sep)
+		fmt.Fprintf(&sb, "  mk_tfunc %s %s [%s] %s %s%s\n", q(f.name), f.recv, strings.Join(gs, "; "), qlist(f.params), qlist(f.results), sep)
 	}
 	sb.WriteString("].\n\n")
 	return sb.String()
@@ -338,10 +415,11 @@ func main() {
 		os.Exit(1)
 	}
 	sb.WriteString(galStrs("methods_gerror_GError", ms))
-	sb.WriteString("Definition gen_tables : tmpl_tables :=\n  {| tt_genum := genum_funcs; tt_gerror := gerror_funcs; tt_gsort := gsort_funcs;\n" +
+	sb.WriteString("(* the interface signatures come from the farm harness (IfaceSigsGen.v) *)\n" +
+		"Definition gen_tables_of (isigs : list (string * sigreq)) : tmpl_tables :=\n  {| tt_genum := genum_funcs; tt_gerror := gerror_funcs; tt_gsort := gsort_funcs;\n" +
 		"     tt_enum := iface_genum_Enum; tt_typed := iface_genum_TypedEnum;\n" +
 		"     tt_error := iface_gerror_Error; tt_factory := iface_gerror_Factory;\n" +
-		"     tt_promoted := methods_gerror_GError |}.\n")
+		"     tt_promoted := methods_gerror_GError; tt_isigs := isigs |}.\n")
 	if err := os.WriteFile(*out, []byte(sb.String()), 0o644); err != nil {
 		fmt.Fprintln(os.Stderr, "xlate_tmpl_methods:", err)
 		os.Exit(1)
